@@ -53,9 +53,30 @@ def replay_exact(shape, cards):
     return [] if sorted(res) == sorted(want) else ['core features %r != always-selected %r for shape %s cards %r' % (res, want, R.shape_str(shape), cards)]
 
 
-def replay_with_ctcs(shape, cards, trees):
+def once_ctc(shape, cards, x, y, kind) -> bool:
+    """E1: with one simple cross-tree constraint between features x and y (symbolic indices) the result
+    lists no feature twice, contains the root, contains every feature the tree alone forces ... no:
+    only what the property states - returned once, root included, model unchanged."""
+    n = R.n_features(shape)
+    pool = ['F%d' % i for i in range(n)]
+    a, b = pool[x], pool[y]
+    tree = [('REQUIRES', a, b), ('IMPLIES', a, b), ('EXCLUDES', a, b), ('IMPLIES', a, ('NOT', b)), ('OR', ('NOT', a), b)][kind]
+    m = R.build(shape, cards, ctcs=[R.ctc('c0', tree)])
+    res = FMCoreFeatures().execute(m).get_result()
+    ids = [id(f) for f in res]
+    if len(set(ids)) != len(ids):
+        return False
+    names = [f.name for f in res]
+    for i in range(len(names)):
+        for j in range(i + 1, len(names)):
+            if names[i] == names[j]:
+                return False
+    return id(m.root) in ids
+
+
+def replay_with_ctcs(shape, cards, trees, light=False):
     """E2: every returned feature is in every configuration of tree /\\ ctcs; returned once; root included;
-    model unchanged."""
+    model unchanged. light: the z3 part is skipped."""
     import z3
     shape = totuple(shape)
     cards = [tuple(c) for c in cards]
@@ -74,11 +95,11 @@ def replay_with_ctcs(shape, cards, trees):
         out.append('feature returned more than once: %r' % names)
     if 'F0' not in names:
         out.append('root not returned')
-    for name in names:
+    for name in ([] if light else names):
         r = R.decide(z3, ctx, f, *cf, z3.Not(env[name], ctx))
         if r == 'sat':
             out.append('%s returned as core but a valid configuration omits it; shape %s cards %r ctcs %r' % (name, R.shape_str(shape), cards, trees))
-    if not trees:
+    if not trees and not light:
         forced = R.ref_forced(shape, cards)
         for i in range(n):
             r = R.decide(z3, ctx, f, z3.Not(var[i], ctx))
@@ -102,13 +123,21 @@ def batch_e2(max_n, lo, hi, seed):
             cases = [[]]
             if n >= 2:
                 cases += [[rnd.choice(pool)] for _ in range(2)]
-            for trees in cases:
+                # simple constraints between every ordered pair of features (a constraint-aware implementation
+                # meets the tree traversal in every relative position); z3 decides a sample, the rest is 'once / root / pure'
+                simple = [[(k, a, b)] for a in names for b in names if a != b for k in ('REQUIRES', 'IMPLIES')]
+                simple += [[('EXCLUDES', a, b)] for a in names[1:] for b in names[1:] if a < b]
+                two = [x + y for x in simple[:len(names) * 2] for y in simple if x != y]
+                full = set(rnd.sample(range(len(simple)), min(3, len(simple))))
+                cases += [(t, i not in full) for i, t in enumerate(simple)] + [(t, True) for t in rnd.sample(two, min(6, len(two)))] + [(t, False) for t in rnd.sample(two, min(2, len(two)))]
+            for case in cases:
+                trees, light = case if isinstance(case, tuple) else (case, False)
                 res['instances'] += 1
                 res['nontrivial'] += 1
                 res['native_runs'] += 1
-                bad = replay_with_ctcs(shape, cards, trees)
+                bad = replay_with_ctcs(shape, cards, trees, light)
                 if bad:
-                    res['violations'].append({'label': 'core-e2', 'detail': bad[0], 'replay_func': 'replay_with_ctcs', 'replay_args': [shape, cards, trees]})
+                    res['violations'].append({'label': 'core-e2', 'detail': bad[0], 'replay_func': 'replay_with_ctcs', 'replay_args': [shape, cards, trees, light]})
                     if len(res['violations']) >= 3:
                         return res
                 res['sample'] = {'shape': R.shape_str(shape), 'cards': cards, 'constraints': trees}
@@ -116,9 +145,25 @@ def batch_e2(max_n, lo, hi, seed):
 
 
 def conditions(tier, seed):
+    from ..runner import Cond
+    from .common import cards_params
     N = 5 if tier == 'quick' else 7
-    return cards_conditions('c14_exact', 'c14', 'exact', indexed_shapes(N), 30 if tier == 'quick' else 90,
-                            'core features == forced set (closed form)')
+    conds = cards_conditions('c14_exact', 'c14', 'exact', indexed_shapes(N), 30 if tier == 'quick' else 90,
+                             'core features == forced set (closed form)')
+    M = 4 if tier == 'quick' else 5
+    for si, shape in indexed_shapes(M, 3):
+        n = R.n_features(shape)
+        params, pre, cards = cards_params(shape)
+        imp = 'from fmverif.props import c14 as P\nSHAPE_%d = %r\n' % (si, shape)
+        dc = tuple(x for c in R.default_cards(shape) for x in c)
+        full = tuple(x for (p, cs) in R.relations_of(shape) for x in (len(cs), len(cs)))
+        conds.append(Cond(name='c14_once_%d' % si, imports=imp, params=params + ', x: int, y: int, kind: int',
+                          pre=pre + ['0 <= x < %d' % n, '0 <= y < %d' % n, 'x != y', '0 <= kind < 5'],
+                          body='P.once_ctc(SHAPE_%d, %s, x, y, kind)' % (si, cards), timeout=40 if tier == 'quick' else 120,
+                          aspect='with one simple constraint between a symbolic pair of features: every feature returned once, root included',
+                          sample={'shape': R.shape_str(shape), 'symbolic': 'all (min,max) pairs, the two constrained features, the constraint form (requires / implies / excludes / implies-not / or-not)'},
+                          validate=[dc + (n - 1, 1, 0), full + (n - 1, n - 2, 1), full + (1, 2, 0), dc + (0, 1, 2)]))
+    return conds
 
 
 def batches(tier, seed):
